@@ -23,7 +23,9 @@ RULE = ("scenes from the seed (generator of C10 with boundary pairs pml, periodi
         "model `fwd r` / `fwd c`; forward() from a complex state on the complex placement vs `fwd c`; direct calls of "
         "_tfsf_inject_E_face/_tfsf_inject_H_face (real fields/real profile = complex fields/real profile = real fields/"
         "complex-typed profile with zero imaginary part; genuinely complex profile vs model incidentComponent). "
-        "non-trivial = the run ends with non-zero fields.")
+        "One more oracle-only scene per run (thorough: 3): a ModePlaneSource (tidy3d mode solver, 20x20 / 22x22 cross-section) "
+        "whose core is conductive AND Lorentz/Drude dispersive, with Field/Energy/PoyntingFlux detectors, real vs complex "
+        "storage. non-trivial = the run ends with non-zero fields.")
 
 TOL = 1e-9
 AXPAIRS = [("pml", "pml"), ("periodic", "periodic"), ("bloch", "bloch"), ("pec", "pec"), ("pmc", "pmc"), ("none", "none"),
@@ -216,6 +218,76 @@ def tfsf_part(ctx, c, scr, rng):
     return detail, n
 
 
+# ------------------------------------------------------------ ModePlaneSource in a conductive + dispersive core (oracle only)
+def mode_forced(seed, k=0):
+    n = 20 + 2 * ((seed + k) % 2)
+    return dict(mode="modesrc", shape=[6, n, n], steps=6, axis=0, direction="+" if (seed + k) % 2 == 0 else "-",
+                core={"kind": "lorentz" if k % 2 == 0 else "drude", "w0": 6.0e15, "wp": 2.0e15, "gamma": 1.0e14, "de": 1.5, "eps_inf": 6.0,
+                      "sigma": 3.0e4, "size": 8}, wavelength=1.0e-6, mode_index=0, seed=500 + seed + k)
+
+
+def mode_scene(c, complex_fields):
+    j = Y.J()
+    f, jnp = j["fdtdx"], j["jnp"]
+    wave = f.WaveCharacter(wavelength=c["wavelength"])
+
+    def extra(vol):
+        core = f.UniformMaterialObject(partial_grid_shape=(None, c["core"]["size"], c["core"]["size"]),
+                                       material=L.dispersive_material(f, c["core"]), name="core")
+        src = f.ModePlaneSource(name="src0", partial_grid_shape=(1, None, None), wave_character=wave, direction=c["direction"],
+                                mode_index=c["mode_index"], static_amplitude_factor=1.0)
+        dets = [f.FieldDetector(name="det0_field", dtype=jnp.float64, plot=False, partial_grid_shape=(None, None, None)),
+                f.EnergyDetector(name="det1_energy", dtype=jnp.float64, plot=False, reduce_volume=True, partial_grid_shape=(None, None, None)),
+                f.PoyntingFluxDetector(name="det2_poynting", dtype=jnp.float64, plot=False, direction="+", partial_grid_shape=(1, None, None))]
+        cons = [core.place_at_center(vol), src.set_grid_coordinates(axes=0, sides="-", coordinates=2),
+                dets[2].set_grid_coordinates(axes=0, sides="-", coordinates=4)]
+        for d in dets[:2]:
+            cons += list(d.same_position_and_size(vol))
+        return [core, src] + dets, cons
+    faces = {"min_x": "periodic", "max_x": "periodic", "min_y": "none", "max_y": "none", "min_z": "none", "max_z": "none"}
+    dt = L._dt(dict(widths=None))
+    return Y.build(c["shape"], faces, time=(c["steps"] + 0.01) * dt, gradient=None, extra_fn=extra, complex_fields=complex_fields)
+
+
+def mode_oracle(c, info=None):
+    j = Y.J()
+    f, jax, jnp = j["fdtdx"], j["jax"], j["jnp"]
+    outs = []
+    for cf in (None, True):
+        sc = mode_scene(c, cf)
+        st = f.run_fdtd(arrays=sc.arrays, objects=sc.objects, config=sc.config, key=jax.random.PRNGKey(0), show_progress=False)
+        outs.append((sc, st))
+    (scr, (tr, ar)), (scc, (tc, ac)) = outs
+    if info is not None:
+        src = [s for s in scr.objects.sources][0]
+        info["on"] = _mx(ar.fields.E) > 0
+        info["profile_complex_dtype"] = bool(jnp.iscomplexobj(src._E))
+        info["conductive"] = scr.arrays.electric_conductivity is not None
+        info["dispersive"] = scr.arrays.dispersive_c1 is not None
+    if not jnp.iscomplexobj(ac.fields.E):
+        return "use_complex_fields=True did not allocate complex fields"
+    for nm in ("E", "H"):
+        d = cmp_complex_real(f"mode source in a conductive dispersive core: final {nm}", getattr(ac.fields, nm), getattr(ar.fields, nm))
+        if d:
+            return d
+    for name, st in ar.detector_states.items():
+        for key, vr in st.items():
+            d = cmp_complex_real(f"mode source scene: detector state {name}/{key}", ac.detector_states[name][key], vr)
+            if d:
+                return d
+    return None
+
+
+def one_mode_case(ctx, c):
+    info = {}
+    d = mode_oracle(c, info)
+    ctx.impl_property_evals += 1
+    ctx.case(nontrivial=("modesrc", c["seed"]) if info.get("on") and info.get("conductive") and info.get("dispersive") else None,
+             mode="mode-source", mode_profile_complex_dtype=info.get("profile_complex_dtype"), core=c["core"]["kind"])
+    if d:
+        ctx.violation(c, d)
+
+
 def one_case(ctx, c, sample=False):
     scr, scc = L.scene_of(c, None), L.scene_of(c, True)
     info = {}
@@ -262,9 +334,20 @@ def run(ctx):
         cases[1] = gen_case(ctx.rng, False)
     for i, c in enumerate(cases):
         one_case(ctx, c, sample=i < 2)
+    try:
+        import tidy3d  # noqa: F401  (mode solver used by ModePlaneSource)
+        have_solver = True
+    except Exception:
+        have_solver = False
+        ctx.notes.append("tidy3d mode solver not importable: ModePlaneSource scene skipped")
+    if have_solver:
+        for k in range(ctx.scale(1, 3)):
+            one_mode_case(ctx, mode_forced(ctx.seed, k))
 
 
 def property_fails(c):
+    if c.get("mode") == "modesrc":
+        return mode_oracle(c)
     scr, scc = L.scene_of(c, None), L.scene_of(c, True)
     return run_oracle(c, scr, scc)
 
@@ -277,6 +360,15 @@ def search(ctx, hints):
             if d:
                 ctx.violation(h, d)
                 return
+    for k in range(2):
+        try:
+            d = property_fails(mode_forced(ctx.seed, k))
+        except ImportError:
+            break
+        ctx.impl_property_evals += 1
+        if d:
+            ctx.violation(mode_forced(ctx.seed, k), d)
+            return
     rng = ctx.rng.fork()
     for i in range(ctx.scale(6, 30)):
         c = gen_case(rng, False)
